@@ -309,7 +309,98 @@ def check_report_fields(bundle, want):
     return None
 
 
+def gen_many_blocks(tier='quick'):
+    '''Bundles with n extension blocks: every n up to 40, and around the widths of a CBOR
+    array head (24 and 256 top-level items), although the outer array is of indefinite length.'''
+    menu = ext_menu()
+    counts = list(range(0, 41)) + [252, 253, 254, 255, 256, 257, 300]
+    if tier == 'thorough':
+        counts = list(range(0, 301))
+    for n in counts:
+        for kind in (0, 2):
+            b = base_bundle(kind)
+            pay = b['blocks'][-1]
+            blocks = []
+            for i in range(n):
+                blk = dict(menu[(i + n) % len(menu)])
+                blk['num'] = i + 2
+                blocks.append(blk)
+            b['blocks'] = blocks + [pay]
+            yield ('extension-blocks=%d k%d' % (n, kind), b)
+
+
+def time_values(tier='quick'):
+    '''DTN times (ms since 2000-01-01) whose datetime / ISO text input forms are converted:
+    every millisecond of windows after the epoch, around 2^k seconds, and of the present.'''
+    vals = list(range(0, 3000))
+    width = 2000 if tier == 'quick' else 20000
+    for k in range(10, 36):
+        vals.extend(range((2 ** k) * 1000 - 50, (2 ** k) * 1000 + width))
+    for base in (843480000000, 700000000000, 1073741824000 + 86400000 * 30):
+        vals.extend(range(base, base + width))
+    return vals
+
+
+def run_times(params, known):
+    '''DtnTimeField input conversion (datetime and ISO text) against integer arithmetic, and a
+    whole bundle per 97th value built from the datetime form.'''
+    import datetime
+    _env.load_bp()
+    from bp.encoding import Timestamp, Bundle
+    from bp.encoding.fields import DtnTimeField
+    epoch = datetime.datetime(2000, 1, 1, tzinfo=datetime.timezone.utc)
+    (part, parts) = (params['part'], params['parts'])
+    violations = []
+    count = 0
+    keys = set()
+
+    def bad(kind, detail, val):
+        if len(violations) < 5:
+            v = Violation(PROP, 'codec', kind, dict(), detail).as_dict()
+            v['case'] = dict(label='dtn time %d' % val, dtn_time_ms=val)
+            violations.append(v)
+
+    for (idx, val) in enumerate(time_values(params['tier'])):
+        if idx % parts != part:
+            continue
+        count += 1
+        when = epoch + datetime.timedelta(days=val // 86400000, seconds=(val % 86400000) // 1000, milliseconds=val % 1000)
+        text = when.strftime('%Y-%m-%dT%H:%M:%S') + '.%03d' % (val % 1000)
+        try:
+            got_dt = Timestamp(dtntime=when, seqno=1).getfieldval('dtntime')
+            got_tx = Timestamp(dtntime=text, seqno=1).getfieldval('dtntime')
+            back = DtnTimeField.dtntime_to_datetime(val)
+        except Exception as err:
+            bad('time-conversion-raises', '%d (%s): %s: %s' % (val, text, type(err).__name__, err), val)
+            continue
+        if got_dt != val:
+            bad('datetime-input-gives-other-dtn-time', '%s is DTN time %d, the field holds %r' % (when.isoformat(), val, got_dt), val)
+        elif got_tx != val:
+            bad('text-input-gives-other-dtn-time', '%s is DTN time %d, the field holds %r' % (text, val, got_tx), val)
+        elif val != 0 and back != when:
+            bad('dtn-time-to-datetime-differs', 'DTN time %d is %s, got %r' % (val, when.isoformat(), back), val)
+        else:
+            keys.add(repr((val.bit_length(), val % 1000 == 0)))
+        if count % 97 == 0:
+            b = base_bundle(0)
+            b['primary']['ts'] = (val, 3)
+            obj = impl_build(b)
+            obj.primary.create_ts = Timestamp(dtntime=when, seqno=3)
+            obj.update_all_crc()
+            enc = bytes(obj)
+            if enc != B.encode(b):
+                bad('encoding-differs-from-independent-encoder', 'bundle created %s: %s vs %s' % (text, enc.hex()[:120], B.encode(b).hex()[:120]), val)
+            elif impl_values(Bundle(enc))['primary']['ts'] != (val, 3):
+                bad('decode-yields-other-values', 'bundle created %s decodes to %r' % (text, impl_values(Bundle(enc))['primary']['ts']), val)
+    kn, out_v = [], []
+    for v in violations:
+        ent = known.match(v) if known is not None else None
+        (kn if ent else out_v).append(dict(v, entry=ent) if ent else v)
+    return dict(name=params['name'], evaluations=count, nontrivial_keys=sorted(keys), violations=out_v, known=kn, samples=[])
+
+
 GENERATORS = {
+    'many-blocks': gen_many_blocks,
     'field-sweeps': gen_field_sweeps,
     'flag-subsets': gen_flag_subsets,
     'product': gen_product,
@@ -321,6 +412,8 @@ GENERATORS = {
 def run_chunk(params, known):
     _env.load_bp()
     gen = GENERATORS[params['space']]
+    if params['space'] == 'many-blocks':
+        gen = (lambda g=gen: g(params.get('tier', 'quick')))
     (part, parts) = (params['part'], params['parts'])
     violations = []
     keys = set()
@@ -355,18 +448,25 @@ def run_chunk(params, known):
 def scenarios(tier):
     out = []
     plan = [('field-sweeps', 4), ('flag-subsets', 2), ('product', 8), ('status-reports', 4),
-            ('block-lists', 8)]
+            ('block-lists', 8), ('many-blocks', 2 if tier == 'quick' else 8)]
     for (space, parts) in plan:
         for part in range(parts):
             name = '%s-%d/%d' % (space, part + 1, parts)
             out.append(dict(name=name, kind='enum', runner='run_chunk',
-                            params=dict(name=name, space=space, part=part, parts=parts), weight=10))
+                            params=dict(name=name, space=space, part=part, parts=parts, tier=tier), weight=10))
+    parts = 4 if tier == 'quick' else 16
+    for part in range(parts):
+        name = 'time-inputs-%d/%d' % (part + 1, parts)
+        out.append(dict(name=name, kind='enum', runner='run_times',
+                        params=dict(name=name, part=part, parts=parts, tier=tier), weight=10))
     return out
 
 
 ASSUMPTIONS = [
     'unsigned fields take the values at every CBOR head-width boundary (0,1,23,24,255,256,65535,65536,2^32-1,2^32,2^64-1); values strictly in between are not enumerated',
     'extension-block lists of up to three blocks from a menu of nine (previous node, age, hop count, BIB, BCB, unknown types)',
+    'bundles with n extension blocks for every n up to 40 and around 24 / 256 top-level items (thorough: every n up to 300)',
+    'DTN time input forms (datetime, ISO text): every millisecond of windows after the epoch, around 2^k seconds for k = 10..35 and at three later dates (2000 ms wide, thorough 20000 ms), against integer arithmetic',
     'the independent codec (vmc/oracle/bpv7.py, cbor_min.py, crc.py) is the reference for RFC 9171 / RFC 8949',
 ]
 
